@@ -41,8 +41,13 @@ func TestCheck(t *testing.T) {
 		{"wal-fork-ahead-by-one", hist.Config{PageSize: 512, Start: 3, WAL: true, R2Starts: "partitioned", Alphabet: full, Prelude: []string{"part:R1", "tx:a:tl", "demote"}}, 3, 40 * time.Second},
 		{"journal-fork-ahead-by-one", hist.Config{PageSize: 512, Start: 3, R2Starts: "absent", Alphabet: append([]string{"start"}, full...), Prelude: []string{"part:R1", "tx:a:g1", "demote"}}, 3, 40 * time.Second},
 	}
+	// journal-mode round trips: WAL -> rollback journal -> WAL with the size changing in between
+	roundTrip := job{"wal-mode-round-trip", hist.Config{PageSize: 512, Start: 3, WAL: true, R2Starts: "absent", Alphabet: []string{"fromwal", "towal", "tx:g1", "tx:s1", "tx:t1", "restart"}}, 4, 50 * time.Second}
+	jobs = append(jobs, roundTrip)
 	if run.Thorough() {
+		roundTrip.depth, roundTrip.budget = 6, 10*time.Minute
 		jobs = []job{
+			roundTrip,
 			{"journal-255p", hist.Config{PageSize: 512, Start: 255, R2Starts: "partitioned", Alphabet: full}, 5, 15 * time.Minute},
 			{"wal-257p-lz4", hist.Config{PageSize: 512, Start: 257, WAL: true, Compress: true, R2Starts: "partitioned", Alphabet: full}, 5, 15 * time.Minute},
 			{"journal-4k-2db-filter", hist.Config{PageSize: 4096, Start: 3, SecondDB: true, FilterR2: true, Alphabet: full}, 4, 10 * time.Minute},
